@@ -42,7 +42,10 @@ def run(ctx, rep):
             continue
         if s.kind == 'store':
             ac = util.addr_class(mod, s.fn, s.addr)
-            ok = ac['kind'] == 'call' and ac['inst'].callee in ('malloc', 'calloc')
+            # (the constructor's store into the block it has just obtained from an allocator - malloc & co. or an allocating wrapper - or the same
+            # store made by a static initialiser that only ever receives such fresh blocks)
+            from .C03 import _allocators, _only_fresh_blocks
+            ok = (ac['kind'] == 'call' and ac['inst'].callee in _allocators(mod)) or _only_fresh_blocks(mod, s.fn, ac)
             msg = 'the counter value is overwritten by a store outside the constructor (a concurrent add is lost)'
         else:
             ok, msg = False, 'unexpected RMW on the counter value'
